@@ -10,8 +10,8 @@ where
     T: ParserListener + Send + 'a,
 {
     parser: Parser<'a, T>,
-    utf8_decoder: &'static encoding_rs::Encoding,
-    incomplete: Vec<u8>, // Only need to store incomplete UTF-8 sequences
+    // Streaming decoder: keeps incomplete UTF-8 sequences between feeds
+    utf8_decoder: encoding_rs::Decoder,
 }
 
 impl<'a, T> ByteParser<'a, T>
@@ -21,8 +21,7 @@ where
     pub fn new(listener: Arc<Mutex<T>>) -> Self {
         Self {
             parser: Parser::new(listener),
-            utf8_decoder: UTF_8,
-            incomplete: Vec::new(),
+            utf8_decoder: UTF_8.new_decoder_with_bom_removal(),
         }
     }
 
@@ -30,22 +29,17 @@ where
         let use_utf8 = self.parser.parser_state.lock().unwrap().use_utf8;
 
         let data_str = if use_utf8 {
-            // Handle incomplete UTF-8 sequences from previous feed
-            let mut bytes = Vec::new();
-            bytes.extend_from_slice(&self.incomplete);
-            bytes.extend_from_slice(data);
-
-            // Decode UTF-8 with replacement characters for invalid sequences
-            let (cow, _had_errors) = self.utf8_decoder.decode_with_bom_removal(&bytes);
-
-            // Store any incomplete UTF-8 sequence for next time
-            if let Some(last_valid) = cow.len().checked_sub(1) {
-                self.incomplete = bytes[last_valid..].to_vec();
-            } else {
-                self.incomplete.clear();
-            }
-
-            cow.into_owned()
+            // Decode UTF-8 with replacement characters for invalid sequences;
+            // an incomplete trailing sequence stays inside the decoder
+            let mut decoded = String::with_capacity(
+                self.utf8_decoder
+                    .max_utf8_buffer_length(data.len())
+                    .unwrap_or(data.len() * 3 + 4),
+            );
+            let _ = self
+                .utf8_decoder
+                .decode_to_string(data, &mut decoded, false);
+            decoded
         } else {
             // Convert bytes directly to chars when not using UTF-8
             data.iter().map(|&b| b as char).collect::<String>()
@@ -58,7 +52,7 @@ where
         match code {
             "@" => {
                 self.parser.set_use_utf8(false);
-                self.incomplete.clear();
+                self.utf8_decoder = UTF_8.new_decoder_with_bom_removal();
             }
             "G" | "8" => {
                 self.parser.set_use_utf8(true);
